@@ -7,3 +7,32 @@
 pub fn consts() -> Vec<(&'static str, u64)> {
     Vec::new()
 }
+
+/// Value codec entry points (types::varint, DataType (de)serialisation).
+pub mod values {
+    use crate::types::{DataType, DataTypeKind, VarInt, varint::MAX_VARINT_LEN};
+
+    pub fn varint_encode(v: i64) -> Vec<u8> {
+        let mut buf = [0u8; MAX_VARINT_LEN];
+        VarInt::encode(v, &mut buf).to_vec()
+    }
+
+    pub fn varint_encoded_size(v: i64) -> usize {
+        VarInt::encoded_size(v)
+    }
+
+    /// `(value, bytes consumed)` of the varint at the start of `bytes`.
+    pub fn varint_decode(bytes: &[u8]) -> Result<(i64, usize), String> {
+        let (v, n) = VarInt::from_encoded_bytes(bytes).map_err(|e| e.to_string())?;
+        Ok((v.value(), n))
+    }
+
+    pub fn serialize(v: &DataType) -> Result<Vec<u8>, String> {
+        v.serialize().map(|b| b.to_vec()).map_err(|e| e.to_string())
+    }
+
+    pub fn deserialize(kind: DataTypeKind, bytes: &[u8]) -> Result<(DataType, usize), String> {
+        let (r, n) = kind.reinterpret_cast(bytes).map_err(|e| e.to_string())?;
+        Ok((r.to_owned().unwrap_or(DataType::Null), n))
+    }
+}
